@@ -24,11 +24,25 @@ type checker struct {
 
 // one compares the implementation with the formula's value for some admissible N1.
 func (c *checker) one(bits []bool, desc func() interface{}) {
+	c.oneVia("DiscreteFourierTransformTest", func() (float64, float64) { return r.DiscreteFourierTransformTest(bits) }, bits, desc)
+}
+
+// oneBytes: the byte-oriented entry point and the registry runner on the same sequence.
+func (c *checker) oneBytes(data []byte, desc func() interface{}) {
+	bits := refmodel.Bits(data)
+	c.oneVia("DiscreteFourierTransformTestBytes", func() (float64, float64) { return r.DiscreteFourierTransformTestBytes(data) }, bits, desc)
+	c.oneVia("DiscreteFourierTransform", func() (float64, float64) {
+		res := r.DiscreteFourierTransform(data)
+		return res.P, res.Q
+	}, bits, desc)
+}
+
+func (c *checker) oneVia(fname string, call func() (float64, float64), bits []bool, desc func() interface{}) {
 	n := len(bits)
 	atomic.AddInt64(&c.evals, 1)
 	var p, q float64
-	if pv := common.Catch(func() { p, q = r.DiscreteFourierTransformTest(bits) }); pv != nil {
-		c.cmp.Panic("DiscreteFourierTransformTest", pv, desc())
+	if pv := common.Catch(func() { p, q = call() }); pv != nil {
+		c.cmp.Panic(fname, pv, desc())
 		return
 	}
 	lo, hi := refmodel.DFTCounts(bits)
@@ -41,12 +55,12 @@ func (c *checker) one(bits []bool, desc func() interface{}) {
 	for n1 := lo; n1 <= hi; n1++ {
 		wp, wq := refmodel.DFTFromCount(n, n1)
 		if c.cmp.Within(p, q, wp, wq, 0) {
-			c.cmp.PQ("DiscreteFourierTransformTest", uint64(n)<<32|uint64(n1), p, q, wp, wq, desc)
+			c.cmp.PQ(fname, uint64(n)<<32|uint64(n1), p, q, wp, wq, desc)
 			return
 		}
 	}
 	wp, wq := refmodel.DFTFromCount(n, lo)
-	c.cmp.PQ("DiscreteFourierTransformTest", uint64(n)<<32|uint64(lo), p, q, wp, wq, func() interface{} {
+	c.cmp.PQ(fname, uint64(n)<<32|uint64(lo), p, q, wp, wq, func() interface{} {
 		return map[string]interface{}{"input": desc(), "admissible_N1": []int{lo, hi}}
 	})
 }
@@ -89,6 +103,31 @@ func Run(ctx *common.Ctx) int {
 		})
 	}
 	cmp.Count(fmt.Sprintf("every bit string n=2..%d", maxN), c.evals)
+	s1a := c.evals
+	// S1b: every byte string of 1 and 2 bytes (thorough: and 3 bytes at stride 257) through the byte entry point and the registry runner
+	for nb := 1; nb <= 2; nb++ {
+		tot := 1 << uint(8*nb)
+		common.ParFor(tot, func(v int) {
+			data := make([]byte, nb)
+			for i := range data {
+				data[i] = byte(v >> uint(8*(nb-1-i)))
+			}
+			c.oneBytes(data, func() interface{} { return map[string]interface{}{"bytes_hex": fmt.Sprintf("%x", data), "entry": "bytes / registry runner"} })
+		})
+	}
+	byteLens := []int{3, 4, 5, 7, 8, 9, 15, 16, 17, 31, 32, 33, 63, 64, 65, 127, 128, 129, 1024, 2500}
+	common.ParFor(len(byteLens), func(i int) {
+		for sd := 0; sd < 4; sd++ {
+			data := refmodel.Pack(enum.Filler(8*byteLens[i], uint64(ctx.Seed)+uint64(sd)))
+			if sd == 3 {
+				for k := range data {
+					data[k] = 0xFF
+				}
+			}
+			c.oneBytes(data, func() interface{} { return map[string]interface{}{"bytes": byteLens[i], "filler_seed": ctx.Seed + int64(sd), "entry": "bytes / registry runner"} })
+		}
+	})
+	cmp.Count("every 1- and 2-byte string, and fillers of 3..2500 bytes, through DiscreteFourierTransformTestBytes and the registry runner", c.evals-s1a)
 	s1 := c.evals
 	cmp.Sample(map[string]interface{}{"family": "S1", "lengths": fmt.Sprintf("2..%d", maxN), "oracle": "naive O(N^2) DFT of the zero-extended +-1 sequence"})
 	// S2: lengths around powers of two x structured contents with <= 1 bit flip
